@@ -167,6 +167,10 @@ def algo_rule(ctx):
             details.append(t)
             if t != {".": [], "..": ["pop"], "_": ["push"]}:
                 okall = False
+        splits = [n for n in sir.walk(f.body) if n.get("k") == "mcall" and n["m"] in ("split", "split_terminator", "rsplit", "split_inclusive", "splitn")]
+        oksep = bool(splits) and all(n["m"] == "split" and len(n["args"]) == 1 and n["args"][0].get("k") == "lit" and n["args"][0].get("v") == "/" for n in splits)
+        obs.append(ob("C13.algo/%s/separator" % name, oksep, ctx.where(f), "paths are cut at `/` and only there (%d split calls): %s" % (len(splits), oksep),
+                      witness=None if oksep else 'a backslash in a src is rewritten to `/`: the link no longer names the file that was registered'))
         obs.append(ob("C13.algo/%s/segments" % name, okall, ctx.where(f), "segment handling %s (expected `.` dropped, `..` pops, anything else - including empty segments - pushed)" % details,
                       witness=None if okall else 'src="d//t" links `p/d/t` instead of the registered `p/d//t`'))
         if name == "resolve":
